@@ -161,7 +161,7 @@ def run(ctx):
     global CASES, TREE
     env.init()
     mc = 2 if ctx.quick else 3
-    small = 1 if ctx.quick else 2
+    small = 1
     # E1 + export: the order of the code.  Rollback exactness, no clobbering renames, phase bookkeeping hold ...
     data, res = tlc.json_cases(ctx, "TransformGen", cfg_text=gen_cfg(mc, False, SAFE), label="MC as coded + export", timeout=840)
     TREE = {t: {"path": list(e["path"]), "kind": e["kind"]} for t, e in data["tree"].items()}
@@ -228,3 +228,19 @@ def run(ctx):
              "(TransformGen.tla); each runs with no fault and with a fault at every file-system call of apply(), on a "
              "bzr 2a and a git working tree; non-trivial = runs with an injected fault" % mc)
     ctx.assume("fault = OSError(EIO) raised instead of the k-th os.rename / delete_any call made during apply(); one fault per run")
+
+
+def replay(ctx, rep):
+    """./check C13 --replay FILE: re-run one recorded (transform, flavour, k) on the real code and print what is observed."""
+    global TREE
+    import json
+    env.init()
+    r = rep["replay"]
+    TREE = {"A": {"path": ["a"], "kind": "file"}, "B": {"path": ["b"], "kind": "file"}, "D": {"path": ["d"], "kind": "directory"},
+            "DA": {"path": ["d", "a"], "kind": "file"}}
+    fl = r["flavour"]
+    BASES[fl] = tc.make_base(ctx.workdir, fl, TREE)
+    obs, info = run_once({"m": r["transform"]}, fl, r["k"], os.path.join(ctx.workdir, "wt"))
+    print(json.dumps({"signature": rep["signature"], "observed_now": obs, "info": info}, indent=1))
+    ctx.count(1, traces=1)
+    ctx.sample({"replayed": rep["signature"]})
